@@ -32,7 +32,7 @@ ASSUMPTIONS = ["hash seeds are sampled (2^32 values), not enumerated",
                "error messages of rejected forms are compared too (same bytes), which is slightly more than the statement demands of results"]
 BUDGET = {"quick": 1100, "thorough": 40000}
 REQUIRED_LABELS = ["kind:seeds", "kind:history", "kind:threads", "kind:stress", "history:repeat-after-other", "history:regen", "threads:switches>=3",
-                   "seeds:accepted", "feature:no-headers", "feature:or-other-translated", "feature:namespaces", "feature:single-colon-headers"]
+                   "seeds:accepted", "feature:no-headers", "feature:or-other-translated", "feature:namespaces", "feature:single-colon-headers", "feature:invalid-choice-headers"]
 
 REPO = os.environ.get("VERIF_REPO", "/repo")
 HERE = os.path.dirname(os.path.dirname(os.path.dirname(os.path.abspath(__file__))))
@@ -143,6 +143,15 @@ def _form(draw, g_holder):
         feats.add("misspelled-sheets")
     if any("or_other" in n["c"].get("type", "") for n, _ in model.walk(form["nodes"])) and g.langs:
         feats.add("or-other-translated")
+    if form.get("lists") and g.p("_", 0.25):
+        # several extra choices columns that cannot be element names: each gets its own warning, in sheet order
+        cols = g.shuffled(["geo code", "old name", "1col", "a b c", "x y", "9", "per cent%"])[: g.integer(2, 5)]
+        for lst in form["lists"]:
+            for r in lst["rows"]:
+                for cname in cols:
+                    if g.p("_", 0.6):
+                        r[cname] = "v"
+        feats.add("invalid-choice-headers")
     with_headers = not g.p("_", 0.3)
     if not with_headers:
         feats.add("no-headers")
